@@ -119,6 +119,7 @@ def run(prog, ctx):
     ctx.floor("C12.D3", n_over, 25, "overrides of getAnalyticSolutionIntegral")
     check_dimension_index_spaces(prog, ctx, base)
     check_vectorised_buffers(prog, ctx, base)
+    check_arguments_not_modified(prog, ctx, base)
 
     # ---------------------------------------------------------------- D4
     tm = Terms(call.node)
@@ -600,3 +601,23 @@ def check_vectorised_buffers(prog, ctx, base):
                     ctx.violation("C12.D9", R.key_of(fi, "buffer-dtype:%s" % src(x)[:40]), fi.loc(x),
                                   "`%s` allocates an integer result buffer in a vectorised evaluation" % src(x))
     ctx.note("C12.D9", "Function::vectorised-buffers", "sparseSpACE/Function.py", "%d dtype-inheriting / typed buffer allocations analysed" % n)
+
+
+def check_arguments_not_modified(prog, ctx, base):
+    """C12.D11: no evaluation or analytic-integral routine of a test function modifies, in place, a sequence it receives (coordinates,
+    box bounds) or a numpy view of it (`np.asarray(end)` is the caller's array when the caller passed one): the caller's box would be
+    clipped / its integer bounds truncated, and the next use of the same array (FunctionCompose hands one box to every part) is wrong."""
+    n = 0
+    for c in prog.all_subclasses(base):
+        for name in ("eval", "eval_vectorized", "getAnalyticSolutionIntegral", "__call__"):
+            f = c.methods.get(name)
+            if f is None:
+                continue
+            n += 1
+            ctx.touch(f)
+            mods = R.inplace_modifications_of_parameters(f)
+            ctx.check(not mods, "C12.D11", R.key_of(f, "arguments-not-modified"), f.loc(mods[0][0]) if mods else f.loc(),
+                      "%s.%s does not modify the sequences it receives" % (c.name, name),
+                      "%s.%s modifies its argument `%s` in place (`%s`, %s): `%s` may be the caller's own array" %
+                      (c.name, name, mods[0][2] if mods else "", src(mods[0][0])[:80] if mods else "", mods[0][3] if mods else "", mods[0][1] if mods else ""))
+    ctx.floor("C12.D11", n, 40, "evaluation / analytic-integral routines of the test functions")
